@@ -45,6 +45,10 @@ func smallCap(r *mc.Run) {
 	// free client / receive-time choices (+1s, -1s, +1ns), everything else within 2 deviations
 	r.Explore(mc.Config{Name: "cap3/free", Bound: mc.Pick(r, 2, 3), Prune: true},
 		tsskit.Program(tsskit.Params{Clients: cl, Steps: mc.Pick(r, 6, 8), FreeClientRx: true, RxKinds: 3, Prune: true}, nil))
+	// requests that waited in the socket buffer: received just before the least
+	// recently active client's last activity, handled after it
+	r.Explore(mc.Config{Name: "cap3/late-handled", Bound: mc.Pick(r, 1, 2), Prune: true},
+		tsskit.Program(tsskit.Params{Clients: cl, Steps: mc.Pick(r, 6, 7), FreeClientRx: true, RxSet: []int{0, 5, 2}, Prune: true}, nil))
 	// the same from stores in which client A's eight-slot record has already wrapped
 	for _, pre := range []int{8, 9, 11} {
 		r.Explore(mc.Config{Name: fmt.Sprintf("cap3/prefill%d", pre), Bound: mc.Pick(r, 3, 4)},
@@ -63,7 +67,7 @@ func smallCap(r *mc.Run) {
 	r.Explore(mc.Config{Name: "cap3/era-rollover", Bound: mc.Pick(r, 1, 2), Prune: true},
 		tsskit.Program(tsskit.Params{Clients: cl, Steps: mc.Pick(r, 5, 7), FreeClientRx: true, RxKinds: 3, Prune: true}, nil))
 	tsskit.T0 = saved
-	r.Extra["rule"] = "cap-3 store, five client identities: all histories of 6 (8) steps with free client and receive-time order choices and <=2 (3) other deviations, canonical-state pruned; the C06 alphabet within 4 (5) deviations, also from stores where one client's eight-slot record has wrapped (8, 9, 11 prior exchanges); the same exploration with the time origin 3 s before the 2036 era rollover; every transition judged by the eviction rule and the structural invariants"
+	r.Extra["rule"] = "cap-3 store, five client identities: all histories of 6 (8) steps with free client and receive-time order choices (+1s, -1s, +1ns; and +1s, +1ns, 1ns before the least recently active client's last activity with the handler running after it) and <=2 (3) other deviations, canonical-state pruned; the C06 alphabet within 4 (5) deviations, also from stores where one client's eight-slot record has wrapped (8, 9, 11 prior exchanges); the same exploration with the time origin 3 s before the 2036 era rollover; every transition judged by the eviction rule and the structural invariants"
 }
 
 // realCap: the shipped constant. Fill the store with 2^20 clients in three
